@@ -24,7 +24,17 @@ for pid in props:
         })
     else:
         na.append({'property_id': pid, 'reason': na_reasons.get(pid, 'no check registered yet: the Lean model/proof and correspondence harness for this property are not built; nothing is claimed')})
-hooks_commits = [l.strip() for l in open(os.path.join(V, 'hooks_commits.txt')) if l.strip()] if os.path.exists(os.path.join(V, 'hooks_commits.txt')) else []
+import subprocess
+hooks_commits = subprocess.run(['git', '-C', '/repo', 'log', '--format=%H', '--grep=^verif hooks'], capture_output=True, text=True).stdout.split()
+# known_findings.json is assembled from findings.d/<ID>.json (lists of entries); it is a committed
+# file and is never written by a check at run time.
+kf = []
+fd = os.path.join(V, 'findings.d')
+if os.path.isdir(fd):
+    for f in sorted(os.listdir(fd)):
+        if f.endswith('.json'):
+            kf += json.load(open(os.path.join(fd, f)))
+json.dump(kf, open(os.path.join(V, 'known_findings.json'), 'w'), indent=1)
 man = {
     'version': 1,
     'setup_cmd': './setup.sh',
